@@ -18,8 +18,9 @@ constexpr auto copy_n(InputIt first, Size count, OutputIt result) -> OutputIt
 {
     if (count > 0) {
         *result = *first;
-        for (Size i = 1; i < count; ++i) {
-            *(++result) = *(++first);
+        ++result;
+        for (Size i = 1; i < count; ++i, (void)++result) {
+            *result = *(++first);
         }
     }
     return result;
